@@ -4,7 +4,7 @@ import os
 import subprocess
 from .common import Check, read_keyed, ROOT
 
-KINDS = ("R ", "X ", "T ", "W ", "D ")
+KINDS = ("R ", "X ", "T ", "W ", "D ", "Z ", "Y ", "K ", "C ")
 
 
 def split_case(line):
@@ -115,6 +115,9 @@ def main(tier, replay=None):
                     continue
                 f.write(cl + " | " + out + "\n")
                 n_mon += 1
+            elif key[0] in "ZK":
+                f.write(cl + " | " + out + "\n")
+                n_mon += 1
     spec_out = c.run_sharded([driver, "<"], spec_in, os.path.join(rd, "spec.out"), argv_suffix=["spec"])
     spec = read_keyed(spec_out)
     mon_viol = 0
@@ -143,6 +146,23 @@ def main(tier, replay=None):
                 "accessor indices with P/F: " + ",".join(bad) if bad else "the value reported does not lie within / equal the input",
                 "model output for the same input:",
                 "  " + str(model.get(key)),
+                "replay: bin/check C16 quick --replay <this file>"]))
+        elif key.startswith("Z "):
+            c.violation("derived-roundtrip", "\n".join([
+                "property C16 fails on the implementation (derived encoders): the value written through the derived "
+                "ToTLV (to_tlv and tlv_iter must agree) does not decode back to an equal value through the derived FromTLV",
+                "case (zoo type, tag, value): " + cl[:3000],
+                "implementation (bytes written, value decoded): " + il[:3000],
+                "model                                         : " + str(model.get(key))[:3000],
+                "replay: bin/check C16 quick --replay <this file>"]))
+        elif key.startswith("K "):
+            c.violation("writebuf-" + (sl[3] if len(sl) > 3 else "capacity"), "\n".join([
+                "property C16 fails on the implementation (writer with a capacity): a write into a full WriteBuf must fail "
+                "with the previously written bytes intact (a derived structure must leave exactly them), and a write that "
+                "succeeds must decode back",
+                "case (zoo type, capacity, prefix already in the buffer, value): " + cl[:3000],
+                "implementation (result 0 = ok / E = error, as_slice afterwards): " + il[:3000],
+                "model                                                          : " + str(model.get(key))[:3000],
                 "replay: bin/check C16 quick --replay <this file>"]))
         else:
             c.violation("writer-roundtrip", "\n".join([
@@ -220,7 +240,7 @@ def main(tier, replay=None):
             fields = ml.split(" ")[2:]
             if any(x.startswith("=") for x in fields[1:30]) and "E" in fields:
                 nt.add(cl.split(" ", 2)[2])
-        elif key[0] in "TW":
+        elif key[0] in "TWZYKC":
             nt.add(cl.split(" ", 2)[2])
     samples, seen = [], {}
     for key, cl in case_by_key.items():
@@ -239,7 +259,9 @@ def main(tier, replay=None):
         "rule": "case lines by kind: R = one byte string through all 51 reader accessors (model vs implementation, field by field), "
                 "X = exhaustive block of 256^n byte strings compared by digest (all strings of length <= 2; length 3 in the thorough tier), "
                 "T = value tree written by TLVWrite and by TLV::bytes_iter vs model bytes, W = one minimal-width writer call, "
-                "D = derived encoders (implementation only). non-trivial = distinct reader input (id removed) on which the model returns "
+                "D = derived encoders (implementation only), Z = value of a zoo type through the derived encoders vs the generic model "
+                "(denc/ddec), Y = derived decoder on hostile bytes vs ddec, K = derived to_tlv into a WriteBuf of a given capacity vs "
+                "denc_wb, C = WriteBuf script (writes, anchors, rewinds) vs wb_run. non-trivial = distinct reader input (id removed) on which the model returns "
                 "at least one value beyond the control byte and at least one error, or any distinct writer case",
         "samples": samples,
         "cases_by_kind": kinds,
